@@ -88,8 +88,10 @@ def gen_scenario(rng, prof=None):
             ops.append(f"until_local_max {rng.choice(alive)[0]} {rng.randint(0, 4)}")
         elif r < 0.68 and alive:
             ops.append(f"until_local_timeout {rng.choice(alive)[0]} {rng.choice([0, 1, 2, 3, 6, fbits(0.75)])}")
-        elif r < 0.74 and alive:
+        elif r < 0.72 and alive:
             ops.append(f"read {rng.choice(alive)[0]}")
+        elif r < 0.74 and alive:
+            ops.append(f"roundtrip {rng.choice(alive)[0]}")
         elif r < 0.74 + prof["p_crash"] * 0.5 and len(nodes) > 1:
             n = rng.choice(nodes)
             if n in crashed and rng.random() < 0.3:
